@@ -122,25 +122,34 @@ Proof.
   intros H. unfold intake. specialize (H p avail). destruct (e_locs e); [reflexivity|]. rewrite H. reflexivity.
 Qed.
 
+(* what lookups, refreshes' inputs and restarts depend on: the entries and the disk (the marks only record which
+   list failed verification last, for tryUpdateSignatureCertFromChain) *)
+Definition same_visible (a b : rstate) : Prop := entries a = entries b /\ disk a = disk b.
+
 Lemma update_one_failed cfg ev f st id e :
-  lookup id (entries st) = Some e -> unacceptable cfg ev f e -> update_one cfg ev f st id e = st.
+  lookup id (entries st) = Some e -> unacceptable cfg ev f e -> same_visible (update_one cfg ev f st id e) st.
 Proof.
-  intros Hlk Hu. unfold update_one.
-  destruct (e_loaded e); rewrite intake_unacceptable by exact Hu; rewrite update_same by exact Hlk;
-    unfold persist; destruct st; simpl; destruct (r_storage cfg); reflexivity.
+  intros Hlk Hu. unfold update_one, same_visible.
+  destruct (e_loaded e); rewrite intake_unacceptable by exact Hu; cbn [entries disk];
+    rewrite update_same by exact Hlk; unfold persist; destruct (r_storage cfg); auto.
 Qed.
 
-(* a refresh in which nothing acceptable can be obtained leaves the whole state untouched *)
+(* a refresh in which nothing acceptable can be obtained leaves every entry — list, loaded flag, signer — and the
+   disk untouched *)
 Lemma refresh_failed_keeps cfg ev f st :
-  (forall id e, In (id, e) (entries st) -> unacceptable cfg ev f e) -> refresh_all cfg ev f st = st.
+  (forall id e, In (id, e) (entries st) -> unacceptable cfg ev f e) -> same_visible (refresh_all cfg ev f st) st.
 Proof.
   intros H. unfold refresh_all.
-  assert (G : forall ids : list (ident * entry), fold_left (fun s ide => match lookup (fst ide) (entries s) with
-                          | Some e => update_one cfg ev f s (fst ide) e | None => s end) ids st = st).
-  { induction ids as [|[id e0] ids IH]; simpl; [reflexivity|].
-    destruct (lookup id (entries st)) as [e|] eqn:El; [|exact IH].
-    rewrite update_one_failed; [exact IH|exact El|]. apply (H id e). apply lookup_in. exact El. }
-  apply G.
+  assert (G : forall (ids : list (ident * entry)) s, same_visible s st ->
+     same_visible (fold_left (fun s ide => match lookup (fst ide) (entries s) with
+                          | Some e => update_one cfg ev f s (fst ide) e | None => s end) ids s) st).
+  { induction ids as [|[id e0] ids IH]; intros s Hs; simpl; [exact Hs|]. apply IH.
+    destruct (lookup id (entries s)) as [e|] eqn:El; [|exact Hs].
+    destruct Hs as [He Hd].
+    destruct (update_one_failed cfg ev f s id e El) as [He' Hd'].
+    { apply (H id e). apply lookup_in. rewrite <- He. exact El. }
+    split; congruence. }
+  apply G. split; reflexivity.
 Qed.
 
 (* all or nothing: after an intake the entry holds its previous list or the whole new one *)
@@ -165,6 +174,40 @@ Proof.
   - rewrite policy_lenient by discriminate. reflexivity.
   - rewrite policy_verify, (Hv eq_refl). reflexivity.
 Qed.
+
+(* key rollover: the last refresh failed verification (the list is signed by a certificate the entry does not know);
+   a handshake whose chain verifies that list makes the repository adopt the signer, and the next refresh takes
+   the list in — "a later successful refresh still takes effect" also across a change of the signing key *)
+Lemma rollover_refresh cfg ev st id c e l loc rest :
+  r_sigmode cfg = SigVerify -> lookup id (marks st) = Some l -> lookup id (entries st) = Some e ->
+  e_loaded e = true -> e_locs e = loc :: rest -> ev loc = Serve l -> l_parse_ok l = true ->
+  verified l (c_chain c) = true ->
+  exists e1, lookup id (entries (resigned_state cfg st id c)) = Some e1 /\
+             e_signer e1 = Some (l_signer l) /\ e_list e1 = e_list e /\
+             e_list (fst (intake cfg ev Refresh id e1 (match e_signer e1 with Some s => [s] | None => [] end) NoFault)) = Some l.
+Proof.
+  intros Hm Hmk Hlk Hld Hlocs Hev Hp Hv. unfold resigned_state. rewrite Hmk, Hlk, Hm, Hld, Hv. cbn [andb].
+  eexists. cbn [entries]. rewrite lookup_update_same. split; [reflexivity|]. cbn [e_signer e_list]. split; [reflexivity|]. split; [reflexivity|].
+  unfold intake. cbn [e_locs]. rewrite Hlocs, Hev. unfold accepts. rewrite Hp. cbn [andb].
+  rewrite Hm, policy_verify.
+  assert (Hv' : verified l [l_signer l] = true).
+  { unfold verified in *. apply andb_prop in Hv. destruct Hv as [Hs _]. rewrite Hs. cbn. rewrite N.eqb_refl. reflexivity. }
+  rewrite Hv'. reflexivity.
+Qed.
+
+(* the whole story on a concrete history: old list in force; the CA rolls its key and publishes a list signed with
+   the new one: the refresh fails and the old list keeps answering; a client whose chain contains the new
+   certificate shakes hands; the next refresh brings the new list into force *)
+Definition l_old : crl := {| l_issuer := 1; l_serials := [101; 103]%Z; l_signer := 1; l_sig_ok := true; l_parse_ok := true |}.
+Definition l_rolled : crl := {| l_issuer := 1; l_serials := [102; 103]%Z; l_signer := 2; l_sig_ok := true; l_parse_ok := true |}.
+Definition cert_of (issuer : N) (serial : Z) : cert := {| c_issuer := issuer; c_serial := serial; c_cdps := [(1%N, true)]; c_chain := [issuer; 9%N] |}.
+Lemma rollover_example :
+  snd (run_steps {| r_storage := Disk; r_sigmode := SigVerify; r_fetch := Active; r_strict := true |} init_state
+        [SServe 1 (Serve l_old); SHandshake (cert_of 1 101); SServe 1 (Serve l_rolled); SRefresh NoFault;
+         SHandshake (cert_of 1 101); SHandshake (cert_of 1 102); SHandshake (cert_of 2 900); SRefresh NoFault;
+         SHandshake (cert_of 1 101); SHandshake (cert_of 1 102)]) =
+  [None; Some VRevoked; None; None; Some VRevoked; Some VAccept; Some VAccept; None; Some VAccept; Some VRevoked].
+Proof. vm_compute. reflexivity. Qed.
 
 (* ---------------------------------------------------------------- C16 *)
 Lemma accepts_uniform cfg p q a avail f :
